@@ -50,12 +50,21 @@ let show_url u = Printf.sprintf "scheme=%s opaque=%s path=%s rawpath=%s omithost
 let show_hres = function Ok (HUrl u) -> "ok(" ^ show_url u ^ ")" | Ok (HAuth (a, u)) -> "ok(authority=" ^ show_chars a ^ " " ^ show_url u ^ ")"
   | Err _ -> "err" | Panic -> "panic"
 
-(* the detail text is only built for cases that are reported *)
-let verdict ~agree ~spec ~kf ~(detail : unit -> string) : string option =
-  if agree && spec && kf = "-" then None else Sx.verdict ~agree ~spec ~kf ~detail:(detail ())
+(* the verdict of one case; the detail text is only built for cases that are reported *)
+type v = { agree : bool; spec : bool; kf : string; detail : unit -> string }
+let verdict ~agree ~spec ~kf ~(detail : unit -> string) : v = { agree; spec; kf; detail }
 
-let () =
-  run_file Sys.argv.(1) (fun _ sx ->
+(* several steps judged one by one (a kept encoding, a step of a sequence): all must agree, all must
+   meet the specification; the line is a listed finding iff every step that does not is one *)
+let combine (vs : v list) : v =
+  let agree = List.for_all (fun x -> x.agree) vs and spec = List.for_all (fun x -> x.spec) vs in
+  let bad = List.filter (fun x -> not x.spec) vs in
+  let kf = if bad <> [] && List.for_all (fun x -> x.kf <> "-") bad then (List.hd bad).kf else "-" in
+  { agree; spec; kf;
+    detail = (fun () -> String.concat " | " (List.mapi (fun i x -> Printf.sprintf "step %d: agree=%b spec=%b %s" i x.agree x.spec (x.detail ()))
+                                               (List.filter (fun x -> not (x.agree && x.spec)) vs))) }
+
+let rec judge (sx : t list) : v =
     match sx with
     (* ---- Depth *)
     | [L [A "depth-rt"; d]; L [of_; op]] ->
@@ -219,4 +228,46 @@ let () =
     | [L [A "utf8-enc"; r]; b] ->
       bump "utf8_enc";
       verdict ~agree:(encode_rune (n_of_int (int_ r)) = str b) ~spec:true ~kf:"-" ~detail:(fun () -> "utf8.AppendRune")
-    | _ -> raise (Parse_error "line"))
+    (* ---- generator audit: kept results, sequences, overlapping calls, named zones *)
+    | [L (A "hold" :: cases); L obss] ->
+      bump (Printf.sprintf "hold_%d" (List.length cases));
+      combine (List.map2 (fun c o -> judge [c; o]) cases obss)
+    | [L (A "overlap" :: lists); L obsl] ->
+      bump (Printf.sprintf "overlap_%d_goroutines" (List.length lists));
+      combine (List.map2 (fun l o -> combine (List.map2 (fun c o -> judge [c; o]) (list l) (list o))) lists obsl)
+    | [L [A ("time-rtz" | "ical-rtz" as k); t; z]; o] ->
+      bump (k ^ "_" ^ show_chars (str z));
+      judge [L [A (String.sub k 0 (String.length k - 1)); t; A "0"]; o]
+    | [L [A "time-e2ez"; t; z]; o] ->
+      bump ("time_e2ez_" ^ show_chars (str z));
+      judge [L [A "time-e2e"; t; A "0"]; o]
+    | [L (A "redec" :: A prim :: texts); L obss] ->
+      bump ("redec_" ^ prim);
+      let steps = List.map2 (fun t o -> judge [L [A (prim ^ "-dec"); t]; o]) texts obss in
+      let v = combine steps in
+      if prim = "status" then
+        { v with agree = status_redec_agrees status_zero (List.map2 (fun t o -> (str t, obs_status o)) texts obss) }
+      else v
+    | [L (A "e2e-many" :: items); L [L seq; L ovl]] ->
+      bump (Printf.sprintf "e2e_many_%d" (List.length items));
+      let one item r =
+        match item, r with
+        | L [secs; off; path; tag; L runes], L [ot; op; oe] ->
+          let p = str path and tg = str tag in
+          let rs = List.map int_ runes in
+          let ip (r : n) = List.mem (int_of_n r) rs in
+          let vt = judge [L [A "time-e2e"; secs; off]; ot] in
+          let want_p = (match href_unmarshal (href_marshal p) with Ok (HUrl u) -> ObsOk u.u_path | Ok (HAuth (_, u)) -> ObsOk u.u_path | _ -> ObsErr) in
+          let want_e = (match etag_unmarshal (etag_marshal ip tg) with Ok s -> ObsOk s | _ -> ObsErr) in
+          let op = obs_str op and oe = obs_str oe in
+          let vp = verdict ~agree:(op = want_p) ~spec:(if href_in_domain p then op = ObsOk p else op <> ObsPanic) ~kf:"-" ~detail:(fun () -> "path through PROPFIND") in
+          let ve = verdict ~agree:(oe = want_e) ~spec:(oe = ObsOk tg) ~kf:"-" ~detail:(fun () -> "entity tag through PROPFIND") in
+          combine [vt; vp; ve]
+        | _ -> raise (Parse_error "e2e-many item") in
+      combine (List.map2 one items seq @ List.map2 one items ovl)
+    | _ -> raise (Parse_error "line")
+
+let () =
+  run_file Sys.argv.(1) (fun _ sx ->
+    let v = judge sx in
+    if v.agree && v.spec && v.kf = "-" then None else Sx.verdict ~agree:v.agree ~spec:v.spec ~kf:v.kf ~detail:(v.detail ()))
